@@ -1,0 +1,147 @@
+//! Hooks for an external verification harness. This module only exists when the crate is
+//! compiled with `--cfg crux_verif`; without an installed [`Perturbation`] every hook is a
+//! no-op, so the pipeline behaves exactly as it does without the cfg.
+//!
+//! The hooks let a harness
+//! * call the private [`super::run`] pipeline with its own crate loader,
+//! * own the order of the fact vectors that are otherwise collected in hash-map order,
+//! * own the order of the edges handed to the formatter,
+//! * own the order in which dependent crates are loaded,
+//! * see which items reached the formatter (the edge relation).
+
+use std::cell::RefCell;
+
+use anyhow::Result;
+use rustdoc_types::Crate;
+
+use super::{
+    node::{CrateNode, ItemNode, SummaryNode},
+    Registry,
+};
+
+/// Which fact vector of the filter a key is asked for.
+#[derive(Clone, Copy, Debug, PartialEq, Eq, PartialOrd, Ord, Hash)]
+pub enum Fact {
+    Summary,
+    Item,
+    ExtCrate,
+}
+
+/// `(crate name, id within that crate's rustdoc description)`
+pub type NodeId = (String, u32);
+
+type FactKey = dyn Fn(Fact, &str, u32) -> u128;
+type EdgeKey = dyn Fn((&str, u32), (&str, u32)) -> u128;
+type CrateRank = dyn Fn(&str) -> u128;
+
+/// Orders imposed by the harness. Every vector is sorted *stably* by the given key, so a key
+/// that is injective on the vector's elements determines the order completely.
+#[derive(Default)]
+pub struct Perturbation {
+    /// key of a fact of the crate currently being processed
+    pub fact_key: Option<Box<FactKey>>,
+    /// key of an edge `(from, to)` handed to the formatter
+    pub edge_key: Option<Box<EdgeKey>>,
+    /// rank of a crate in the work list: of the crates known so far and not yet loaded, the
+    /// one with the lowest rank is loaded next
+    pub crate_rank: Option<Box<CrateRank>>,
+}
+
+/// What one run of the pipeline produced.
+pub struct Outcome {
+    pub registry: Registry,
+    /// the edge relation as it left the filter (before any reordering)
+    pub edges: Vec<(NodeId, NodeId)>,
+}
+
+#[derive(Default)]
+struct State {
+    perturbation: Perturbation,
+    edges: Vec<(NodeId, NodeId)>,
+}
+
+thread_local! {
+    static STATE: RefCell<Option<State>> = const { RefCell::new(None) };
+}
+
+struct Reset;
+
+impl Drop for Reset {
+    fn drop(&mut self) {
+        STATE.with(|s| *s.borrow_mut() = None);
+    }
+}
+
+/// Runs the real code generation pipeline for `crate_name`, loading rustdoc descriptions
+/// through `load`, under the given perturbation (on the calling thread only).
+pub fn run<F>(crate_name: &str, load: F, perturbation: Perturbation) -> Result<Outcome>
+where
+    F: Fn(&str) -> Result<Crate>,
+{
+    STATE.with(|s| {
+        *s.borrow_mut() = Some(State {
+            perturbation,
+            edges: Vec::new(),
+        });
+    });
+    let _reset = Reset;
+    let registry = super::run(crate_name, load)?;
+    let edges = STATE.with(|s| {
+        s.borrow_mut()
+            .as_mut()
+            .map(|s| std::mem::take(&mut s.edges))
+            .unwrap_or_default()
+    });
+    Ok(Outcome { registry, edges })
+}
+
+pub(super) fn permute_facts(
+    crate_name: &str,
+    summary: &mut [(SummaryNode,)],
+    item: &mut [(ItemNode,)],
+    ext_crate: &mut [(CrateNode,)],
+) {
+    STATE.with(|s| {
+        let s = s.borrow();
+        let Some(key) = s.as_ref().and_then(|s| s.perturbation.fact_key.as_ref()) else {
+            return;
+        };
+        summary.sort_by_cached_key(|(n,)| key(Fact::Summary, crate_name, n.id.id));
+        item.sort_by_cached_key(|(n,)| key(Fact::Item, crate_name, n.id.id));
+        ext_crate.sort_by_cached_key(|(n,)| key(Fact::ExtCrate, crate_name, n.id.id));
+    });
+}
+
+pub(super) fn permute_edges(edges: &mut [(ItemNode, ItemNode)]) {
+    STATE.with(|s| {
+        let mut s = s.borrow_mut();
+        let Some(state) = s.as_mut() else {
+            return;
+        };
+        state.edges = edges
+            .iter()
+            .map(|(a, b)| {
+                (
+                    (a.id.crate_.clone(), a.id.id),
+                    (b.id.crate_.clone(), b.id.id),
+                )
+            })
+            .collect();
+        if let Some(key) = state.perturbation.edge_key.as_ref() {
+            edges.sort_by_cached_key(|(a, b)| {
+                key((&a.id.crate_, a.id.id), (&b.id.crate_, b.id.id))
+            });
+        }
+    });
+}
+
+pub(super) fn reorder_crates(next: &mut [String]) {
+    STATE.with(|s| {
+        let s = s.borrow();
+        let Some(rank) = s.as_ref().and_then(|s| s.perturbation.crate_rank.as_ref()) else {
+            return;
+        };
+        // the work list is popped from the back
+        next.sort_by_cached_key(|name| std::cmp::Reverse(rank(name)));
+    });
+}
